@@ -641,10 +641,13 @@ def py_monitor(case, obs):
             seen_term.add(e[1])
     res['C19_report_order_counts'] = ok
     complete = bool(full) and full[-1] == ['complete']
-    # (a run aborted by a reported runtime error may leave a task announced whose actions could not even be created)
+    # (a run aborted by a reported runtime error may leave a task announced whose actions could not even be created; a
+    #  run aborted by an exception that leaves run_tasks -- planted: obs['aborted'] -- may leave a task in flight in
+    #  another worker process whose forwarded `execute` report was never consumed by the main process.  The statement is
+    #  about tasks that got their final report: only tasks WITHOUT one are exempted.)
     res['C19_exec_iff_start'] = (not complete) or all(
         m['noAct'][t] or ((t in seen_exec) == (t in started))
-        or (obs.get('runtime_error') and t not in seen_term) for t in range(m['n']))
+        or ((obs.get('runtime_error') or obs.get('aborted')) and t not in seen_term) for t in range(m['n']))
     return res, {'expected_exit': exp, 'failure_kinds': kinds}
 
 
@@ -709,6 +712,11 @@ def failed_monitors(case, obs, ans):
     py, _ = py_monitor(case, obs)
     lean = (ans.get('monitor') or {}) if ans and 'error' not in ans else None
     failed = [k for k in KEYS if lean is not None and not lean.get(k, True)]
+    if obs.get('aborted') and py['C19_exec_iff_start'] and 'C19_exec_iff_start' in failed:
+        # a run aborted by a planted exception is outside the run model: the Lean monitor knows no such ending and owes
+        # `execute` to every started task; the Python monitor applies the clause to the tasks that got a final report
+        # (the in-flight task of another worker process at the moment of the abort has none)
+        failed.remove('C19_exec_iff_start')
     if not py['C19_exit'] and 'C19_exit' not in failed:
         failed.append('C19_exit')
     if not py['C19_exec_iff_start'] and 'C19_exec_iff_start' not in failed:
